@@ -38,10 +38,11 @@ InjectiveMatch(xs, ys, M(_, _)) ==
         /\ \A i \in DOMAIN xs : M(xs[i], ys[f[i]])
 
 \* an order stands for a declared row: exactly that quantity and price
-RowOf(o, r) == o.q = r[1] /\ o.p = r[2]
+\* (a declared quantity may carry a sign - liquidate() declares position.qty - only its size matters)
+RowOf(o, r) == o.q = SAbs(r[1]) /\ o.p = r[2]
 \* ... or it is the market order that _on_open_position substitutes for a row on the wrong side of the entry price
 \* (NAMED DEVIATION: quantity of the row, price of the moment; exempt from the price/routing clauses)
-RowOrReplacement(o, r) == o.q = r[1] /\ (o.p = r[2] \/ o.type = "MARKET")
+RowOrReplacement(o, r) == o.q = SAbs(r[1]) /\ (o.p = r[2] \/ o.type = "MARKET")
 RowCovered(r, o) == RowOrReplacement(o, r)
 
 (* ------------------------------ C06: hooks --------------------------------- *)
